@@ -4,8 +4,10 @@ Every type of the enumeration (C05's constructor spines with the named leaf inst
 DateTime<Utc>, plus an unmapped struct) is pushed through the real parsers, visitors, schema builder and partial
 templates twice - with GenerateConfig.type_mappings set to the table and without - at all five sites in both
 modes. Correspondence: the text with the table equals the extracted model's (Model/C05Emit.v with the table).
-Oracle (Spec/C18Spec.v, extracted): byte equality of the two texts when the type mentions no mapped name, else
-token-level substitution N -> M (NSchema -> z.M() in schemas; types.N -> M) of the text without the table."""
+Oracle (Spec/C18Known.c18_full_ok, extracted): relational clause (Spec/C18Spec.v: byte equality of the two texts when the
+type mentions no mapped name, else token-level substitution N -> M, NSchema -> z.M(), types.N -> M, of the text without the
+table) AND absolute clause (the text with the table denotes rshape m t - every mapped name at every constructor position,
+map keys included, is its target - inside dom_m and outside C05's remaining classes)."""
 import itertools
 import random
 
@@ -25,7 +27,9 @@ RULE = ("a case is (Rust type, mapping table, site, mode); non-trivial = the typ
         "(every constructor at every argument position to depth 2, leaves String,i32,PathBuf,Uuid,DateTime<Utc>,User; "
         "fillers include PathBuf) x tables (quick: full tables under 3 target rotations, a table that maps only names absent "
         "from the type, one random table, and for types mentioning DateTime<Utc> two tables whose key is only the head DateTime; thorough: all 64 tables over {unmapped,string,number,boolean}^3), random types to depth 6 "
-        "x random tables")
+        "x random tables; overlap (depth <= 1 spines over a name pool in which unmapped names have mapped names as proper prefix, "
+        "suffix or infix - Utf8PathBuf, PathBufExt, MyUuid, UuidV7, DateTimeLocal - and path-qualified spellings std::path::PathBuf, "
+        "uuid::Uuid, x tables whose keys overlap each other, each in 4 (quick) / 8 (thorough) fresh resolvers)")
 TRUSTED = [
     "Spec/C18Spec.v: token-level substitution reading of 'rendered as M' (types.N and N -> M; NSchema -> z.M()) over the lexer Spec/TsLex.v",
     "tools/props/c05_types.py printer of Rust type syntax; harness text extraction from rendered partial templates",
@@ -101,6 +105,38 @@ def tables_for(t, rng, thorough):
     return out
 
 
+# names that overlap mapped names: proper prefix / suffix / infix of an UNMAPPED name, path-qualified spellings
+# (the tool compares the printed name with the key, so these are other names: the frame clause applies), and
+# tables whose keys overlap each other
+OVERLAP_LEAVES = ["PathBuf", "Uuid", "Utf8PathBuf", "PathBufExt", "MyUuid", "UuidV7", "MyUuidV7", "DateTimeLocal",
+                  "std::path::PathBuf", "uuid::Uuid", "camino::Utf8PathBuf", "String", "User"]
+OVERLAP_TABLES = [
+    {"PathBuf": "string"}, {"Uuid": "number"}, {"PathBuf": "boolean", "Uuid": "number", "DateTime": "string"},
+    {"PathBuf": "string", "Utf8PathBuf": "number"}, {"Utf8PathBuf": "boolean", "PathBuf": "number"},
+    {"Uuid": "number", "MyUuid": "boolean", "UuidV7": "string"}, {"MyUuidV7": "string", "Uuid": "boolean"},
+    {"PathBufExt": "number"}, {"std::path::PathBuf": "number", "PathBuf": "string"},
+]
+
+
+def overlap_cases(reps=4):
+    """depth <= 1 spines over the overlapping name pool x the overlapping tables; every case is evaluated in
+    `reps` fresh resolvers / analyzers (fresh hash seeds) because an order-dependent lookup shows only sometimes"""
+    level = [T.leaf(s) for s in OVERLAP_LEAVES]
+    types = list(level)
+    for cons, ar in T.CONSTRUCTORS:
+        for pos in range(ar):
+            for u in level:
+                t = T.build(cons, ar, pos, u, fill=["String", "Utf8PathBuf", "bool", "MyUuid"])
+                if t is not None:
+                    types.append(t)
+    out = []
+    for t in types:
+        for m in OVERLAP_TABLES:
+            for _ in range(reps if len(m) > 1 else 1):
+                out.append({"ty": t, "mappings": m})
+    return out
+
+
 def site_texts(o):
     texts = []
     for md in MODES:
@@ -145,7 +181,7 @@ def evaluate(cases, want=None):
         i = 0
         for md in MODES:
             for s in SITES:
-                model_text, ok, classes = m_sites[i]
+                model_text, ok, abs_ok, classes = m_sites[i]
                 impl, without = w[i], wo[i]
                 i += 1
                 if want and (s, md) not in want:
@@ -158,7 +194,7 @@ def evaluate(cases, want=None):
                     stats["in_class_but_ok"][classes[0]] = stats["in_class_but_ok"].get(classes[0], 0) + 1
                 kf = KF_BY_CLASS.get(classes[0]) if classes else None
                 det = {"with_table": impl, "without_table": without, "model_with_table": model_text,
-                       "mentions_mapped_name": m_mentions, "classes": classes}
+                       "mentions_mapped_name": m_mentions, "absolute_clause": abs_ok, "classes": classes}
                 outs.append(Outcome(dict(base, site=s, mode=md), corr, okb, kf=kf, detail=det, nontrivial=nontriv))
     return outs, stats
 
@@ -187,6 +223,12 @@ def run(rep):
     c05.merge(stats, st)
     rep.extra.setdefault("distribution", {})["spines"] = dict(c05.distribution(cases), cases=len(cases),
                                                               tables=len({tuple(sorted(c["mappings"].items())) for c in cases}))
+    ocases = overlap_cases(8 if thorough else 4)
+    outs, st = evaluate(ocases)
+    rep.add("overlap", outs)
+    c05.merge(stats, st)
+    rep.extra["distribution"]["overlap"] = dict(c05.distribution(ocases), cases=len(ocases), names=OVERLAP_LEAVES,
+                                                tables=OVERLAP_TABLES)
     rcases = []
     tabs = [m for m in all_tables() if m]
     for _ in range(20000 if thorough else 2000):
